@@ -11,11 +11,15 @@
 (*         (<<[n, v]>> in document order), text (comment text), after      *)
 (*         (character data up to the next event), nl (the raw start tag    *)
 (*         contains a line break, i.e. the writer wrapped it)];            *)
-(*   cut   cut[l] = how many events the parser had reported when it had    *)
-(*         been fed get_xml() as it was right after operation l;           *)
-(*   wf    the parser accepted the whole document; utf8 / enc: the bytes   *)
-(*         of get_encoded_xml() are valid UTF-8, decode to get_xml(), and  *)
-(*         the declared encoding.                                          *)
+(*   inc   the start/end/comment events ([k, name]) a second parser        *)
+(*         instance reported while it was fed get_xml() incrementally,     *)
+(*         after every operation; cut[l] = how many of them it had         *)
+(*         reported right after operation l; errat = the operation whose   *)
+(*         output it rejected (0: none);                                   *)
+(*   wf    the parser accepted the whole document (err: its message);      *)
+(*         utf8 / enc: the bytes of get_encoded_xml() are valid UTF-8,     *)
+(*         decode to get_xml(), and the declared encoding; crash: the      *)
+(*         exception type if the writer itself raised ("-" otherwise).     *)
 (* All strings are sequences of code points.                               *)
 (*                                                                         *)
 (* Each operation is replayed through XmlWriter!Do (one state per          *)
@@ -41,8 +45,8 @@ T_OpSet == {}
 Traces == JsonDeserialize(IOEnv.TRACE_FILE)
 NT == Len(Traces)
 
-VARIABLES t, l, ostk, rej, exer, stopped
-tvars == <<vars, t, l, ostk, rej, exer, stopped>>
+VARIABLES t, l, ostk, quiet, rej, exer, stopped
+tvars == <<vars, t, l, ostk, quiet, rej, exer, stopped>>
 
 Active == t <= NT
 Tr == Traces[t]
@@ -86,30 +90,39 @@ ApplyEvs(a0, evs) ==
 Ostk0 == [ok |-> TRUE, st |-> <<>>]
 StepClause(k) == CASE k = "raise" -> "RaiseCloses" [] k = "exit" -> "ExitCloses" [] OTHER -> "OpenStack"
 
-ClauseNames == {"OpenStack", "ExitCloses", "RaiseCloses", "WellFormed", "Utf8", "Structure",
+ClauseNames == {"OpenStack", "ExitCloses", "RaiseCloses", "Returns", "WellFormed", "Utf8", "Structure",
                 "AttrNames", "AttrValues", "NoneOmitted", "Text", "Lines", "WrapContent"}
 Bump(e, cs) == [c \in ClauseNames |-> IF c \in cs THEN e[c] + 1 ELSE e[c]]
 
 ResetModel == /\ stack' = <<>> /\ ctxs' = <<>> /\ indent' = 0 /\ root' = 0 /\ misuse' = FALSE
               /\ out' = <<>> /\ doc' = <<>> /\ hist' = <<>>
-NextTrace == ResetModel /\ t' = t + 1 /\ l' = 1 /\ ostk' = Ostk0 /\ stopped' = stopped
+NextTrace == ResetModel /\ t' = t + 1 /\ l' = 1 /\ ostk' = Ostk0 /\ quiet' = FALSE /\ stopped' = stopped
 
+CutLo == IF l = 1 THEN 0 ELSE Tr.cut[l - 1]
+GenOK == /\ PreOK(Op) /\ (l > 1 \/ RenderOK(Tr))
+         /\ Len(Tr.cut) = Len(Ops) /\ CutLo <= Tr.cut[l] /\ Tr.cut[l] <= Len(Tr.inc)
+
+\* One report per trace: once the observed open elements differ from the model's stack they stay different.
+\* After the incremental parser has given up, or the writer itself raised (errat = index of that operation),
+\* the clause is silent: WellFormed resp. Returns report that.
 Step ==
-    /\ More /\ PreOK(Op) /\ (l > 1 \/ RenderOK(Tr))
+    /\ More
+    /\ GenOK = TRUE       \* "= TRUE": evaluated as one boolean, not decomposed as an action (deep recursion, duplicate successors)
     /\ Do(Op)
-    /\ LET lo == IF l = 1 THEN 0 ELSE Tr.cut[l - 1]
-           o == ApplyEvs(ostk, SubSeq(Tr.evs, lo + 1, Tr.cut[l]))
+    /\ LET o == ApplyEvs(ostk, SubSeq(Tr.inc, CutLo + 1, Tr.cut[l]))
+           speaks == ~quiet /\ (Tr.errat = 0 \/ l < Tr.errat)
+           good == o.ok /\ o.st = stack'
        IN /\ ostk' = o
-          /\ rej' = IF o.ok /\ o.st = stack' THEN rej
-                    ELSE rej \cup {<<Tr.id, StepClause(Op.k), Op.k>>}
-    /\ exer' = Bump(exer, {StepClause(Op.k)})
+          /\ rej' = IF speaks /\ ~good THEN rej \cup {<<Tr.id, StepClause(Op.k), "after " \o Op.k>>} ELSE rej
+          /\ quiet' = (quiet \/ ~good)
+          /\ exer' = IF speaks THEN Bump(exer, {StepClause(Op.k)}) ELSE exer
     /\ l' = l + 1 /\ t' = t /\ stopped' = stopped
 
 \* the generator produced something outside the quantifier / the model: not a verdict about the code
 GenBad ==
-    /\ More /\ ~(PreOK(Op) /\ (l > 1 \/ RenderOK(Tr)) /\ Enabled(Ctl, Op))
+    /\ More /\ ~(GenOK /\ Enabled(Ctl, Op))
     /\ rej' = rej \cup {<<Tr.id, "GEN", ToString(l) \o ":" \o Op.k \o
-                          (IF ~PreOK(Op) THEN ":precondition" ELSE IF Enabled(Ctl, Op) THEN ":render" ELSE ":not-enabled")>>}
+                          (IF ~PreOK(Op) THEN ":precondition" ELSE IF ~GenOK THEN ":harness" ELSE ":not-enabled")>>}
     /\ exer' = exer /\ NextTrace
 
 ---------------------------------------------------------------------------
@@ -168,7 +181,8 @@ Judgement(tr, E) ==
                      IN FirstDiff(EE[i].attrs[j].v, PE[i].attrs[j].v)
         textDetail == LET i == MinOf(exactBad) IN FirstDiff(EE[i].exact, PE[i].after)
         wrapPred == {i \in S : EE[i].wrap /\ Len(EE[i].attrs) >= 2}
-        bad == (IF tr.wf THEN {} ELSE {<<"WellFormed", tr.err>>})
+        bad == (IF tr.crash = "-" THEN {} ELSE {<<"Returns", tr.crash>>})      \* the writer raised on its own
+               \cup (IF tr.wf THEN {} ELSE {<<"WellFormed", tr.err>>})
                \cup (IF tr.utf8 /\ tr.enc \in {"utf-8", "UTF-8", "-"} THEN {} ELSE {<<"Utf8", tr.enc>>})
                \cup (IF tr.wf /\ ~aligned THEN {<<"Structure", "-">>} ELSE {})
                \cup (IF namesBad # {} THEN {<<"AttrNames", "-">>} ELSE {})
@@ -181,7 +195,7 @@ Judgement(tr, E) ==
         drift == (IF aligned /\ wrapPred # wrapI THEN {<<"DRIFT", "wrap-decision">>} ELSE {})
                  \cup (IF tr.wf /\ Comments(P) # [i \in DOMAIN Comments(E) |-> <<32>> \o NormCR(Comments(E)[i]) \o <<32>>]
                        THEN {<<"DRIFT", "comment">>} ELSE {})
-        spoke == {"WellFormed", "Utf8"} \cup (IF tr.wf THEN {"Structure"} ELSE {})
+        spoke == {"Returns", "WellFormed", "Utf8"} \cup (IF tr.wf THEN {"Structure"} ELSE {})
                  \cup (IF \E i \in S : EE[i].attrs # <<>> THEN {"AttrNames", "AttrValues"} ELSE {})
                  \cup (IF noneJ # {} THEN {"NoneOmitted"} ELSE {})
                  \cup (IF \E i \in exactI : EE[i].exact # <<>> THEN {"Text"} ELSE {})
@@ -201,9 +215,9 @@ Judge ==
 
 Finish == /\ ~Active /\ ~stopped
           /\ JsonSerialize(IOEnv.VERDICT_FILE, [n |-> NT, rejected |-> SetToSeq(rej), exercised |-> exer])
-          /\ stopped' = TRUE /\ UNCHANGED <<vars, t, l, ostk, rej, exer>>
+          /\ stopped' = TRUE /\ UNCHANGED <<vars, t, l, ostk, quiet, rej, exer>>
 
-TInit == Init /\ t = 1 /\ l = 1 /\ ostk = Ostk0 /\ rej = {} /\ exer = [c \in ClauseNames |-> 0] /\ stopped = FALSE
+TInit == Init /\ t = 1 /\ l = 1 /\ ostk = Ostk0 /\ quiet = FALSE /\ rej = {} /\ exer = [c \in ClauseNames |-> 0] /\ stopped = FALSE
 TNext == Step \/ GenBad \/ Judge \/ Finish
 TSpec == TInit /\ [][TNext]_tvars
 =============================================================================
